@@ -1,3 +1,4 @@
 pub mod graph;
 pub mod op;
+pub mod sites;
 pub mod tape_shadow;
